@@ -45,6 +45,8 @@ def gen_conn(rng, bias, conn, kbase, foreign_defs, nops_range=(4, 14)):
         op = {"op": "msg", "fields": fields, "yields": r.randint(0, 5) if yields is None else yields}
         if r.chance(0.25):
             op["chunks"] = sorted(r.randint(1, 999) for _ in range(r.randint(1, 3)))
+        elif r.chance(0.3):
+            op["glue"] = True  # written back to back with the next request (one TCP segment)
         ops.append(op)
         m = dict(model)
         m["fields"] = fields
@@ -152,13 +154,15 @@ def gen_conn(rng, bias, conn, kbase, foreign_defs, nops_range=(4, 14)):
             add({"op": "eval", "session": s, "code": "1 + 2"}, kind="noid", session=s)
         elif kind == "bigvalue":
             n = r.randint(5, 60)
-            f = {"op": "eval", "id": rid, "session": s, "code": "\"" + "x" * n + "\""}
+            alphabet = r.choice(["x", "x", "x\u00e9", "\u2192x", "x\U0001f600\u00e9"])
+            body = "".join(r.choice(alphabet) for _ in range(n))
+            f = {"op": "eval", "id": rid, "session": s, "code": "\"" + body + "\""}
             if r.chance(0.6):
                 f["nrepl.middleware.print/stream?"] = 1
                 f["nrepl.middleware.print/buffer-size"] = r.randint(1, 16)
             if r.chance(0.5):
                 f["nrepl.middleware.print/quota"] = r.randint(1, 40)
-            add(f, kind="bigvalue", n=n, session=s)
+            add(f, kind="bigvalue", n=n, body=body, session=s)
         elif kind == "late_clone":
             add({"op": "clone", "id": rid}, kind="clone")
             sess_ids.append(f"garden-{len(sess_ids) + 1}")
@@ -228,23 +232,28 @@ class ConnView:
         self.events = [e for e in run.events if e.get("_conn") == c]
         self.wire = [e for e in self.events if e["k"] == "WIRE"]
         self.desync = None
-        # the n-th request the server read on this connection is the n-th dict message the client sent
-        msg_ops = [i for i, o in enumerate(self.sc["ops"]) if o["op"] == "msg"]
+        self.lost = None
+        # The server reads until EOF, so the requests it reads must be exactly the dict
+        # messages the client sent completely, in the order sent.
+        sent = [e["op_index"] for e in self.events
+                if e["k"] == "CLIENT-SEND" and not e.get("cut") and self.sc["ops"][e["op_index"]]["op"] == "msg"]
+        got = [e for e in self.events if e["k"] == "REQ"]
         self.processed = set()
-        n = 0
-        for e in self.events:
-            if e["k"] != "REQ":
-                continue
-            if n >= len(msg_ops):
-                self.desync = f"connection {c}: the server read more requests than the client sent"
-                break
-            oi = msg_ops[n]
+        for n, oi in enumerate(sent):
             want = self.sc["ops"][oi]["fields"]
+            if n >= len(got):
+                if run.res.get("outcome") == "ok":
+                    self.lost = (f"connection {c}: the client sent {len(sent)} complete requests but the server read only "
+                                 f"{len(got)}; first one never read: {json.dumps(want)[:200]}")
+                break
+            e = got[n]
             if e["msg"].get("id") != want.get("id") or e["msg"].get("op") != want.get("op"):
-                self.desync = f"connection {c}: request #{n} read by the server is {e['msg']} but the client sent {want}"
+                self.lost = (f"connection {c}: request #{n} read by the server is {json.dumps(e['msg'])[:160]} but the client "
+                             f"sent {json.dumps(want)[:160]} (a request was dropped, duplicated or garbled on the way in)")
                 break
             self.processed.add(oi)
-            n += 1
+        if self.lost is None and len(got) > len(sent):
+            self.lost = f"connection {c}: the server read {len(got)} requests but the client sent only {len(sent)} complete ones"
         self.writer_died = any(e["k"] == "WRITER-DIED" for e in self.events)
         self.by_id = {}
         for w in self.wire:
@@ -321,8 +330,8 @@ def check_c30(run):
         cls = "deadlock" if "deadlock" in oc.lower() else ("step-limit" if "exceeded" in oc.lower() or "max_steps" in oc.lower()
                                                          else "server-thread-panicked")
         return [(cls, f"the simulated server did not terminate cleanly: {oc[:500]}")]
-    if run.desync:
-        return [("model-desync", run.desync)]
+    if run.lost:
+        return [("request-lost", run.lost)]
     if run.writer_died or run.budget_hit:
         return out
     seen_order = {}
@@ -393,13 +402,25 @@ def check_c30(run):
         if m["kind"] == "plain" and not kinds and values != [m["value"]]:
             out.append(("value-wrong", f"eval {rid}: value {values}, expected {m['value']}"))
         if m["kind"] == "bigvalue" and not kinds:
-            full = "\"" + "x" * m["n"] + "\""
+            full = ("\"" + m.get("body", "x" * m["n"]) + "\"").encode()
             quota = f.get("nrepl.middleware.print/quota")
-            exp = full[:quota] if quota and len(full) > quota else full
+            # sizes are in bytes; a value is never cut inside a UTF-8 character
+            if quota and len(full) > quota:
+                end = quota
+                while end > 0 and (full[end] & 0xC0) == 0x80:
+                    end -= 1
+                exp = full[:end].decode()
+            else:
+                exp = full.decode()
             if "".join(values) != exp:
                 out.append(("value-wrong", f"eval {rid}: value chunks {values} do not concatenate to {exp!r}"))
             if bool("truncated" in st) != bool(quota and len(full) > quota):
                 out.append(("status-inconsistent", f"eval {rid}: truncated flag wrong: {st} quota={quota} len={len(full)}"))
+            bs = f.get("nrepl.middleware.print/buffer-size")
+            if f.get("nrepl.middleware.print/stream?") and bs:
+                big = [v for v in values if len(v.encode()) > bs and len(v) > 1]
+                if big:
+                    out.append(("value-wrong", f"eval {rid}: streamed value chunk {big[0]!r} exceeds buffer-size {bs}"))
         if m["kind"] == "parse_error" and "eval-error" not in st:
             out.append(("status-inconsistent", f"eval {rid} of unparsable code: status {st}"))
         # 5. isolation
@@ -464,6 +485,11 @@ def check_c30(run):
         if "interrupted" in fst:
             continue
         if "eval-error" in fst and "No such variable" in ferr:
+            if pm["kind"] == "printer" and pm["variant"] == "fun":
+                # an eval interrupted inside its helper function leaves the session stopped in
+                # that frame; the follow-up is then evaluated there, where the toplevel counter
+                # is not in scope - nothing can be inferred
+                continue
             executed = 0
             lo, hi = 0, 0
         elif not [x for x in ("interrupted", "eval-error") if x in fst] and len(fvals) == 1 and fvals[0].isdigit():
